@@ -14,6 +14,7 @@ def handle (input : Json) : Except String Json := do
     | "absent" => .absent
     | "dir" => .dir
     | "empty" => .file ""
+    | "same" => .file "<rendered>"
     | _ => .file ((Driver.fldStr input "content").toOption.getD "x")
   -- the rendering is abstract: only "was it written" is observed
   let out := initRun Mockery.Generated.initOpenFlags st "<rendered>"
